@@ -186,6 +186,10 @@ func (x *c20gen) boolPath(root string, depth int) string {
 		return p + ".IsNotNull()"
 	case 1:
 		if depth > 0 {
+			if !x.inFilter && r.Intn(4) == 0 {
+				// an `@` path as an argument at top level (it reads the document), with its own arguments
+				return p + ".Equal(" + x.arg(func() string { return x.boolPath("@", depth-1) }) + ")"
+			}
 			return p + ".Equal(" + x.arg(func() string { return x.path("$", depth-1) }) + ")"
 		}
 	case 2:
